@@ -23,8 +23,8 @@
 //	  to == message's sender; marshals and decodes back with these fields.
 //
 // A wrong `to` that merely repeats what a wrong Envelope.Sender() returned is
-// reported once, under sender:*; a wire failure that merely follows from a
-// missing resource type is reported once, under *:type-missing.
+// reported once, under sender:*; a wire failure that merely follows from a built
+// reply that already violates a field clause is reported under that clause only.
 package main
 
 import (
@@ -145,14 +145,15 @@ func checkReply(name string, src lime.Envelope, built interface{}, want view) (f
 	if d := codec.Diff(codec.Canon(&want.Resource), codec.Canon(&got.Resource)); d != "" {
 		fail("resource", "reply resource differs from the one given at "+d)
 	}
-	typeMissing := false
 	if want.Resource != nil && got.Resource != nil && got.Type != want.Type {
 		if got.Type == "<nil>" {
-			typeMissing = true
 			fail("type-missing", fmt.Sprintf("reply carries the resource but no resource type (want %s)", want.Type))
 		} else {
 			fail("type-wrong", fmt.Sprintf("reply resource type %s, want %s", got.Type, want.Type))
 		}
+	}
+	if len(fs) > 0 {
+		return // the built reply is already wrong; what the wire does to it adds nothing
 	}
 	// wire round trip: compare what arrives with what was built (stated fields)
 	wire := func(path string, dec interface{}, err error, pan string) {
@@ -160,15 +161,10 @@ func checkReply(name string, src lime.Envelope, built interface{}, want view) (f
 		case pan != "":
 			fail("wire-"+path+"-panic", "decoding the built reply panicked: "+pan)
 		case err != nil:
-			if !typeMissing {
-				fail("wire-"+path+"-rejected", "the built reply does not decode: "+err.Error())
-			}
+			fail("wire-"+path+"-rejected", "the built reply does not decode: "+err.Error())
 		default:
 			w := viewOf(dec, true)
 			g := viewOf(built, true)
-			if typeMissing {
-				w.Type, g.Type = "", ""
-			}
 			if d := codec.Diff(codec.Canon(g), codec.Canon(w)); d != "" {
 				fail("wire-"+path+"-differs:"+d, "the built reply arrives different at "+d)
 			}
